@@ -915,17 +915,49 @@ namespace {
          const std::string id = c.ob.show(sc);
          std::cout << "G new scope " << id << '\n';
          obs_growth(c, id.c_str(), sc.elements(), static_cast<const ipr::Product&>(*ipr::util::view<ipr::Product>(sc.type())));
+         // a third of the additions repeat an earlier (kind, name, type) exactly: a redeclaration is a member like any other;
+         // a (name, type) pair is used by one declaration kind only (precondition of decl_factory::redeclare)
+         struct Prev { int k; const ipr::Name* n; const ipr::Type* t; const ipr::Expr* e; };
+         std::vector<Prev> prev;
+         std::map<std::pair<const ipr::Name*, const ipr::Type*>, int> kind_of;
          for (int i = 0; i < n; ++i) {
             const ipr::Decl* d = nullptr;
-            switch (g() % 6) {
-            case 0: d = reg->declare_var(N(), T()); break;
-            case 1: d = reg->declare_field(N(), T()); break;
-            case 2: d = reg->declare_type(N(), T()); break;
-            case 3: d = reg->scope.make_alias(N(), E()); break;
-            case 4: d = reg->declare_fun(N(), *c.functions[g() % c.functions.size()]); break;
-            default: d = reg->declare_primary_template(N(), *c.foralls[g() % c.foralls.size()]); break;
+            Prev p{};
+            bool redecl = false;
+            if (not prev.empty() and g() % 3 == 0) {
+               p = prev[g() % prev.size()];
+               redecl = true;
             }
-            std::cout << "G add " << id << ' ' << c.ob.show(*d) << " type=" << c.ob.show(d->type()) << '\n';
+            else {
+               for (int attempt = 0; attempt < 16; ++attempt) {
+                  p.k = static_cast<int>(g() % 6);
+                  p.n = &N();
+                  p.e = &E();
+                  switch (p.k) {
+                  case 3: try { p.t = &p.e->type(); } catch (const std::logic_error&) { p.t = nullptr; } break;
+                  case 4: p.t = c.functions[g() % c.functions.size()]; break;
+                  case 5: p.t = c.foralls[g() % c.foralls.size()]; break;
+                  default: p.t = &T(); break;
+                  }
+                  if (p.t == nullptr) continue;
+                  auto it = kind_of.find({p.n, p.t});
+                  if (it == kind_of.end() or it->second == p.k) break;
+               }
+               if (p.t == nullptr) continue;
+               auto it = kind_of.find({p.n, p.t});
+               if (it != kind_of.end() and it->second != p.k) continue;
+               kind_of[{p.n, p.t}] = p.k;
+               prev.push_back(p);
+            }
+            switch (p.k) {
+            case 0: d = reg->declare_var(*p.n, *p.t); break;
+            case 1: d = reg->declare_field(*p.n, *p.t); break;
+            case 2: d = reg->declare_type(*p.n, *p.t); break;
+            case 3: d = reg->scope.make_alias(*p.n, *p.e); break;
+            case 4: d = reg->declare_fun(*p.n, *static_cast<const ipr::Function*>(p.t)); break;
+            default: d = reg->declare_primary_template(*p.n, *static_cast<const ipr::Forall*>(p.t)); break;
+            }
+            std::cout << "G add " << id << ' ' << c.ob.show(*d) << " type=" << c.ob.show(d->type()) << " redecl=" << redecl << '\n';
             obs_growth(c, id.c_str(), sc.elements(), static_cast<const ipr::Product&>(*ipr::util::view<ipr::Product>(sc.type())));
          }
       }
